@@ -136,3 +136,20 @@ Definition auth_ok (u : uri) : Prop :=
    give the text (Spec/Split.v ip4_value, ip6_value) are separate statements. *)
 Definition parsed_wf (ip4_of : text -> option (list N)) (ip6_of : text -> list N) (u : uri) : Prop :=
   chars_ok u /\ flags_ok ip4_of ip6_of u /\ path_ok u /\ auth_ok u.
+
+(* ---------------------------------------------------------------- components inside the input *)
+(* [t] is a contiguous piece of [s] *)
+Definition infix (t s : text) : Prop := exists a b, s = a ++ t ++ b.
+
+(* every text the object reports is a contiguous piece of [s] (an empty text is a piece of anything:
+   this is where the implementation may use its private placeholder instead of a pointer into the
+   input) *)
+Definition components_inside (u : uri) (s : text) : Prop :=
+  opt_ok (fun t => infix t s) (scheme u)
+  /\ opt_ok (fun t => infix t s) (userInfo u)
+  /\ opt_ok (fun t => infix t s) (hostText u)
+  /\ opt_ok (fun t => infix t s) (ipFuture u)
+  /\ opt_ok (fun t => infix t s) (portText u)
+  /\ Forall (fun t => infix t s) (pathSegs u)
+  /\ opt_ok (fun t => infix t s) (query u)
+  /\ opt_ok (fun t => infix t s) (fragment u).
